@@ -225,8 +225,8 @@ def check(spec, tier, seed, replay=None):
         with open(rp, 'w') as f:
             f.write('# correspondence between the Coq model (%s, theorems of Properties_%s.v) and %s no longer checks\n' % (
                 spec.component, pid, os.path.basename(exe)))
-            f.write('# %d of %d cases differ; smallest after shrinking below. first difference at line %s:\n#   model: %s\n#   impl : %s\n' % (
-                len(unexplained), len(cases), core.first_diff(mm, im)))
+            f.write('# %d of %d cases differ; smallest after shrinking below. first difference (line, model, impl): %s\n' % (
+                len(unexplained), len(cases), (core.first_diff(mm, im),)))
             f.write('# the property oracle found no input on which the implementation itself violates %s\n' % pid)
             f.write('# replay: ./check %s --replay %s\n' % (pid, rp))
             f.write(cc.text())
